@@ -94,8 +94,8 @@ CHECKS = {
         text="Theorems over exact rationals: the reader-side formula OBSFREQ - OBSBW/2 + (j+1/2)*CHAN_BW applied to the written header gives "
              "fch1 + (start_chan+j)*chan_bw for either sign of chan_bw and any first channel; get_raw_params recovers fch1 and chan_bw; the "
              "sign of CHAN_BW is the orientation; fftshift + concatenation makes the fine-bin label affine with slope chan_bw/L and equal to "
-             "coarse centre + bin offset; chirp instantaneous frequency = f_start - fch1 + drift*t (negated descending). Header cards and "
-             "get_raw_params are compared with the rational model; reducer output shape with the model. PARTIAL: that a sampled tone peaks "
+             "coarse centre + bin offset for every FFT length, even or odd; chirp instantaneous frequency = f_start - fch1 + drift*t (negated descending). Header cards and "
+             "get_raw_params are compared with the rational model; reducer output shape with the model, its columns with an independent per-channel FFT + fftshift of the same bytes (even and odd lengths). PARTIAL: that a sampled tone peaks "
              "in the bin the DFT assigns is a DSP fact validated by recording tones/chirps and locating them with the file's own header "
              "(library reducer and an independent one), not proved.",
         design="3/C07", technique="Coq field-arithmetic proof over Q (registration algebra) + end-to-end tone location (exploration for the spectral-peak fact)"),
